@@ -70,6 +70,8 @@ def _fmt_list(gs):
 
 def fmt_step(st):
     if is_resp(st):
+        if len(st) > 3 and st[3] == "o":      # the next step (same pair) arrives during the first Notify call of this one
+            return ["o", str(st[0]), str(st[1]), str(st[2])]
         if len(st) > 3:      # (dt, pair, status, "b", refresh step): the refresh arrives during the first Notify call
             return ["b", str(st[0]), str(st[1]), str(st[2])] + [x for i, x in enumerate(fmt_step(st[4])) if i != 1]
         return ["r", str(st[0]), str(st[1]), str(st[2])]
@@ -175,6 +177,8 @@ def parse(line):
         elif k == "s":
             dt = int(nx())
             h["steps"].append((dt, "s", 0, glist()))
+        elif k == "o":
+            h["steps"].append((int(nx()), int(nx()), int(nx()), "o"))
         elif k == "b":
             dt, p, st = int(nx()), int(nx()), int(nx())
             if nx() == "g":
@@ -278,6 +282,12 @@ def analyse(h):
         if not is_resp(st):
             info.append(dict({"clock": clock, "pair": None, "key": None, "status": None, "inc": None, "closing": False, "seg": None,
                               "dropped": True, "kind": st[1]}, **refresh(st)))
+            continue
+        if len(st) > 3 and st[3] == "o":
+            # the next response (same group) arrives while this one is being handed to the modules: hypothesis of the tie -
+            # responses of one group are handled one at a time, so this is the sequence of the two
+            info += analyse_one_response(h, st, clock, L, open_at, seg, info)
+            info[-1]["overlapped"] = True
             continue
         if len(st) > 3:
             # a refresh arrives while the response is being handed to the modules: it takes effect after the response
@@ -736,7 +746,55 @@ def refresh_witnesses():
 
 def has_stall(h):
     """Histories that take real time or may block (steps "s" and "b"): run in parallel probe processes."""
-    return any((is_resp(st) and len(st) > 3) or ((not is_resp(st)) and st[1] == "s") for st in h["steps"])
+    return any((is_resp(st) and len(st) > 3) or ((not is_resp(st)) and st[1] == "s") for st in h["steps"])     # s, b, o
+
+
+def is_overlap(st):
+    return is_resp(st) and len(st) == 4 and st[3] == "o"
+
+
+def well_formed(h):
+    """An "o" step must be followed by a plain response for the same pair at the same clock (shrinking must keep that)."""
+    for i, st in enumerate(h["steps"]):
+        if is_overlap(st):
+            nx = h["steps"][i + 1] if i + 1 < len(h["steps"]) else None
+            if nx is None or not is_resp(nx) or len(nx) != 3 or nx[0] != 0 or nx[1] != st[1] or nx[2] == st[2]:
+                return False
+    return True
+
+
+def add_overlap(rng, h):
+    """Turns one or two results into "o" steps followed by a second result for the same group (another status, same clock):
+    two responses of one group in flight."""
+    L = Listing()
+    idxs = []
+    for i, st in enumerate(h["steps"]):
+        if is_resp(st):
+            if st[2] > 0 and h["pairs"][st[1]] in L.listed:
+                idxs.append(i)
+        else:
+            L.apply(st)
+    steps = list(h["steps"])
+    for i in sorted(rng.sample(idxs, min(len(idxs), rng.choice([1, 1, 2]))), reverse=True):
+        st = steps[i]
+        s2 = rng.choice([x for x in (1, 1, 2, 3) if x != st[2]])
+        steps[i:i + 1] = [(st[0], st[1], st[2], "o"), (0, st[1], s2)]
+    return dict(h, steps=steps)
+
+
+def overlap_witnesses():
+    """ERR (opening) with a slow first module and an OK for the same group meanwhile; OK (closing) with an ERR meanwhile;
+    WARN with an ERR meanwhile - two and three modules with send-close."""
+    out = []
+    for nmods in (2, 3):
+        mods = [{"thr": 2, "iv": 0, "once": False, "close": True, "accg": True, "allow": "-", "deny": "-"} for _ in range(nmods)]
+        pairs = [(1, 0)]
+        for a, b in ((3, 1), (2, 3)):
+            out.append({"kind": KIND, "t0": T0, "mods": mods, "names": ["q"], "pairs": pairs,
+                        "steps": [register_all(pairs), (SEC, 0, a, "o"), (0, 0, b), (SEC, 0, 3), (SEC, 0, 1)]})
+        out.append({"kind": KIND, "t0": T0, "mods": mods, "names": ["q"], "pairs": pairs,
+                    "steps": [register_all(pairs), (SEC, 0, 3), (SEC, 0, 1, "o"), (0, 0, 3), (SEC, 0, 1)]})
+    return out
 
 
 def add_blocked(rng, h):
@@ -850,7 +908,7 @@ def deletions(h):
             out += [dict(h, names=[n for j, n in enumerate(h["names"]) if j != i]) for i in range(len(h["names"]))]
         return out
     for i, st in enumerate(h["steps"]):
-        if is_resp(st) and len(st) > 3:      # the refresh after the response instead of during it
+        if is_resp(st) and len(st) > 4:      # the refresh after the response instead of during it
             out.append(dict(h, steps=h["steps"][:i] + [st[:3], st[4]] + h["steps"][i + 1:]))
     for i in range(len(h["steps"])):
         st = list(h["steps"])
@@ -960,7 +1018,7 @@ def shrink(chk, h, out, oracle, rules, budget=80):
         budget = min(budget, 10)     # every stuck candidate costs the probe its real-time deadline
     while rounds < budget:
         rounds += 1
-        cands = deletions(h)
+        cands = [c for c in deletions(h) if c.get("kind") == "cfg" or well_formed(c)]
         if not cands:
             break
         outs = run_impl(chk, cands, "shrink")
@@ -996,6 +1054,8 @@ def describe(h):
                 note = "  (dropped: the group is not on the notifier's list)"
             elif st["inc"] is not None:
                 note = "  (incident opened at step %d%s)" % (st["inc"], ", closing OK" if st["closing"] else "")
+            if st.get("overlapped"):
+                note += "  [the first Notify call is slow; the next result arrives meanwhile]"
             if "then" in st:
                 r2 = st["then"]["step"]
                 note += "  [the first Notify call is slow; meanwhile arrives a %s]" % (
@@ -1032,6 +1092,8 @@ def count_refreshes(chk, h):
     nref = 0
     for i, (st, raw) in enumerate(zip(info, h["steps"])):
         if st["kind"] == "r":
+            if st.get("overlapped"):
+                chk.count("two-responses-of-one-group-in-flight%s" % (",incident-open-or-opening" if st["inc"] is not None else ""))
             if "then" in st:
                 chk.count("slow-module:refresh(%s)-during-the-first-Notify-call%s" % (
                     {"g": "group-list", "c": "cycle"}[st["then"]["step"][1]], ",incident-open" if st["inc"] is not None else ""))
